@@ -752,7 +752,11 @@ fn apply_fold_specific_filter<'query, AdapterT: Adapter<'query>>(
         let value = match tagged_value {
             TaggedValue::Some(value) => value,
             TaggedValue::NonexistentOptional => {
-                unreachable!("while applying fold-specific filter, the @fold turned out to not exist: {ctx:?}")
+                // The @fold is inside an @optional scope that did not exist.
+                // Filters inside nonexistent @optional scopes always pass: `apply_filter()`
+                // checks `ctx.within_nonexistent_optional()`, so this placeholder is never compared.
+                debug_assert!(ctx.within_nonexistent_optional());
+                FieldValue::Null
             }
         };
         ctx.values.push(value);
